@@ -192,3 +192,8 @@ def extra_coverage(tier):
         "max_max_length": b["maxmax"],
         "exhaustive": False,
     }
+
+
+def optimized_cases():
+    for n in range(0, 8):
+        yield from _exh_cases(n, 0, 1 << n, 3)
